@@ -18,7 +18,9 @@ RULE = ("one case = one store (recordings of real decorated operations whose cla
         "limit / the studio's default ones (limit 20) / caller-supplied limits smaller than the number of selected "
         "ids of one category; or lookup mode over a category list, in lookup order or as a RANDOM SAMPLE "
         "(random_sample=True under a seed of `random` named by the case) without a limit / with a limit smaller than, "
-        "equal to and larger than the number of recordings of a category) + the set of "
+        "equal to and larger than the number of recordings of a category; category lists naming 5-9 distinct categories "
+        "(the four with recordings + C, D, BA, AA, b without) some of them two or three times: reported and tuned once "
+        "each, in the order of their first occurrence) + the set of "
         "categories whose tuning cannot be created, each failing with an exception of its own shape (no arguments: bare "
         "assert / raise <class> / next() of an empty generator / KeyError() / a custom class; one text; several "
         "arguments; non-text arguments: int, None, tuple, bytes, dict, another exception; OSError family) "
@@ -279,6 +281,29 @@ def random_sample_cases(rng, kind, tier):
     return out
 
 
+EXTRA_CATS = ["C", "D", "BA", "AA", "b"]      # categories without recordings (a lookup of them answers nothing)
+
+
+def duplicate_category_cases(rng, kind, tier):
+    """Lookup-driven runs over category lists that name 5 to 9 distinct categories, some of them twice or three times
+    (lists concatenated from several configurations): each category is reported and tuned once, in the order of its
+    first occurrence - whatever the string hash seed of the interpreter (a list collapsed through a set of strings
+    comes out in hash order: with 5+ categories that is practically never the listing order)."""
+    out = []
+    recs = gen_store(rng, kind, 8)
+    for _ in range(6 if tier == "quick" else 30):
+        distinct = rng.sample(CATS + EXTRA_CATS, rng.choice([5, 6, 7, 9]))
+        cats = list(distinct)
+        for _ in range(rng.choice([1, 1, 2, 3])):
+            cats.insert(rng.randrange(len(cats) + 1), rng.choice(distinct))
+        if rng.random() < 0.3:
+            cats = distinct + distinct[::rng.choice([1, -1])]       # two configurations naming the same categories
+        case = lookup_case(rng, kind, recs, fail=rand_fail(rng, sorted(set(cats) & set(CATS + ["C"]))))
+        case["categories"] = cats
+        out.append(case)
+    return out
+
+
 def generate(rng, tier):
     cases = generate_main(rng, tier)
     # ---- random samples.  Drawn after everything else so that the requests above stay what they were.
@@ -299,6 +324,9 @@ def generate(rng, tier):
     # (b) the small region exception shape x request mode x cassette, always (also in the quick tier)
     for kind in ("mem", "file", "s3"):
         cases += fail_shape_cases(rng, kind, tier)
+    # ---- category lists with repetitions over many categories (round 7).  Drawn last.
+    for kind in ("mem", "file", "s3"):
+        cases += duplicate_category_cases(rng, kind, tier)
     return cases
 
 
@@ -576,11 +604,19 @@ def check_play(case, obs, o, which):
             sig = "categories-not-sorted" if sorted(cats) == want else "wrong-categories"
             bad(sig, "result categories %s, the ids' categories sorted: %s" % (cats, want))
     else:
-        # the order in lookup mode (request order) is compared by the correspondence only: any fixed order is
-        # "deterministic"; the predicate demands the requested categories, each once
+        # lookup mode: the requested categories, each once, in the order of their FIRST occurrence in the request - the
+        # only order that is the same in every interpreter process (a set of strings iterates in the order of the
+        # process's string hash seed) and the one the unchanged code and the model give
         want = list(dict.fromkeys(case["categories"]))
         if sorted(cats) != sorted(want):
             bad("wrong-categories", "result categories %s, requested %s" % (cats, want))
+        elif cats != want:
+            bad("categories-not-in-listing-order", "result categories %s, requested %s: first occurrences in listing "
+                "order are %s" % (cats, case["categories"], want))
+    # ---- the tuner is asked once per reported category, in the order of the report
+    if "tuner_calls" in o and o["tuner_calls"] != cats and len(set(cats)) == len(cats):
+        sig = "tuner-calls-not-in-report-order" if sorted(o["tuner_calls"]) == sorted(cats) else "tuner-not-asked-once-per-category"
+        bad(sig, "the tuner was asked for %s, reported categories: %s" % (o["tuner_calls"], cats))
     # ---- tuner failure is that category's result, and only that category's
     for c in cats:
         r = results[c]
@@ -772,6 +808,8 @@ def features(case):
         cats = case["categories"]
         if len(set(cats)) < len(cats):
             f.add("duplicate-categories")
+            if len(set(cats)) >= 5:
+                f.add("duplicate-categories-over-5+-distinct")
         lp = case.get("lp") or {}
         f.add("lookup=%s" % ("default" if lp.get("default") else "limit-%s" % lp.get("limit")))
         if lp.get("random"):
@@ -855,7 +893,10 @@ MANIFEST = dict(
          'arguments (int, None, tuple, bytes, dict, a nested exception, the OSError family) - every way on every cassette for '
          'an explicit and a lookup-driven request: play() returns, the failing category maps to the very exception object '
          'the tuner raised (class and arguments compared with the model, identity checked by the driver), the other '
-         'categories replay as without the failure.',
+         'categories replay as without the failure. Lookup-driven runs report - and ask the tuner for - the requested '
+         'categories once each in the order of their first occurrence in the request (direct predicate; category lists of 5-9 '
+         'distinct categories with repetitions always run): the one order that does not depend on the interpreter\'s string '
+         'hash seed.',
     note='Trusted: Coq kernel + vm_compute; hand-written model; correspondence harness (tagging tuner, lookup spy, fake '
          'bucket/clock). Lookup content is an oracle specified by C10; dedicated comparison processes are C08/C13.',
     technique='Coq proof (induction over id / category lists) + model/implementation correspondence by vm_compute',
